@@ -180,6 +180,9 @@ func (b *binding) emitSetP() {
 	if b.isConst {
 		if b.isStrict || b.scope.c.scope.strict {
 			b.scope.c.emit(throwAssignToConst)
+		} else {
+			// the assignment is silently ignored, but the value must still be discarded
+			b.scope.c.emit(pop)
 		}
 		return
 	}
